@@ -178,3 +178,10 @@ Fixpoint pairwise_exclusive (l : list formula) : bool :=
 (** the features (variables) under which a name with export guard [g] is visible, out of a universe [fs]:
     used to state "what is visible under S is the union over the features in S" *)
 Definition visible_under (g : formula) (S : list N) : bool := eval (of_list S) g.
+
+(** `cfg!(..)` in an expression makes the BEHAVIOUR of a compiled item depend on the feature set (the item is there under
+    every feature set that compiles it, but does something else): none is expected; a reviewed one is listed here by its
+    label "<file>: cfg!(<predicate>)". *)
+Definition reviewed_cfg_macro_sites : list string := [].
+Definition cfg_macros_reviewed (sites : list (string * N)) : bool :=
+  forallb (fun s => mem_str (fst s) reviewed_cfg_macro_sites) sites.
